@@ -81,6 +81,12 @@ Definition unlim_keptb (T T' : dimtab) : bool :=
                     | Some (_, u), Some (_, u') => Bool.eqb u u'
                     | _, _ => true end) T.
 
+(* across renameDimensions the dimension formerly called d is the one now called (rn d) *)
+Definition unlim_renamedb (r : name -> name) (T T' : dimtab) : bool :=
+  forallb (fun p => match lookup (fst p) T, lookup (r (fst p)) T' with
+                    | Some (_, u), Some (_, u') => Bool.eqb u u'
+                    | _, _ => true end) T.
+
 (* ---- numpy facts used ------------------------------------------------------------------ *)
 (* `dst[...] = src`: right-aligned broadcast of src INTO the fixed shape dst; extra leading
    axes of src must have length 1 *)
@@ -255,21 +261,30 @@ Definition impl_rename_var (f : file) (prs : list (name * name)) : res file :=
   do vs' <- rename_vars (fdims f) (fvars f) prs vs;
   Ok (File (fdims f) vs' (fattrs f) (fcoords f)).
 
-(* -- renameDimensions: the table is mutated AFTER the variables exist -- *)
-Fixpoint rd_add (T : dimtab) (prs : list (name * name)) : res dimtab :=
+(* -- renameDimensions (as repaired by fixes/C01-renameDimensions.patch): the old dimension objects are taken
+   first (KeyError if one is missing), ValueError if a target name is used twice or names a dimension that is not
+   itself being renamed, then all old keys are deleted and the objects re-inserted under the new names.
+   The table is still mutated AFTER the variables exist; the variables' dimension tuples are renamed alongside. -- *)
+Fixpoint nodupb (l : list name) : bool :=
+  match l with [] => true | x :: t => negb (memb x t) && nodupb t end.
+Fixpoint rd_ins (T0 T : dimtab) (prs : list (name * name)) : res dimtab :=
   match prs with
   | [] => Ok T
-  | (o, n) :: t => match lookup o T with None => Raise | Some v => rd_add (aset n v T) t end
+  | (o, n) :: t => match lookup o T0 with None => Raise | Some v => rd_ins T0 (aset n v T) t end
   end.
 Fixpoint rd_del (T : dimtab) (prs : list (name * name)) : dimtab :=
   match prs with [] => T | (o, _) :: t => rd_del (adel o T) t end.
+Definition rename_collides (T : dimtab) (prs : list (name * name)) : bool :=
+  negb (nodupb (map snd prs))
+  || existsb (fun p => has (snd p) T && negb (memb (snd p) (map fst prs))) prs.
 Definition rn (prs : list (name * name)) (d : name) : name :=
   match lookup d prs with Some n => n | None => d end.
 Definition impl_rename_dim (f : file) (prs : list (name * name)) : res file :=
   do f0 <- impl_copy f;
-  do T1 <- rd_add (fdims f0) prs;
+  do T2 <- rd_ins (fdims f0) (rd_del (fdims f0) prs) prs;
+  if rename_collides (fdims f0) prs then Raise else
   let vs := map (fun kv => (fst kv, Var (map (rn prs) (vdims (snd kv))) (vshape (snd kv)) (vattrs (snd kv)))) (fvars f0) in
-  Ok (File (rd_del T1 prs) vs (fattrs f0) (fcoords f0)).
+  Ok (File T2 vs (fattrs f0) (fcoords f0)).
 
 (* -- insertDimension (one new dimension) -- *)
 Fixpoint index_of (d : name) (l : list name) : option nat :=
@@ -337,8 +352,6 @@ Fixpoint axis_lens (v : var) (ds : list name) : res (list nat) :=
   | [] => Ok []
   | d :: t => match axis_len v d with Some n => do r <- axis_lens v t; Ok (n :: r) | None => Raise end
   end.
-Fixpoint nodupb (l : list name) : bool :=
-  match l with [] => true | x :: t => negb (memb x t) && nodupb t end.
 Definition reorder_var (neworder : list name) (v : var) : res var :=
   let vno := filter (fun d => memb d (vdims v)) neworder in
   match vno with
@@ -554,14 +567,17 @@ Definition impl_eval (f : file) (key : name) (e : expr) (copyall : bool) : res f
       Ok (File (fdims base) (aset key stored vs0) (fattrs base) (fcoords base))
   end.
 
-(* -- binary operators (pncbo): values= bypasses the dimension table -- *)
+(* -- binary operators (pncbo): values= bypasses the dimension table; the repaired code refuses a result whose shape
+   differs from the left operand's variable -- *)
 Fixpoint binop_vars (T : dimtab) (coords : list name) (other : vartab) (vs acc : vartab) : res vartab :=
   match vs with
   | [] => Ok acc
   | (k, v) :: t =>
       do v' <- (match memb k coords, lookup k other with
                 | false, Some w => match bcast (vshape v) (vshape w) with
-                                   | Some s => Ok (Var (vdims v) s (aset a_units true (add_fill (vattrs v))))
+                                   | Some s => if list_eqb Nat.eqb s (vshape v)       (* fixes/C01-binop-broadcast.patch: *)
+                                               then Ok (Var (vdims v) s (aset a_units true (add_fill (vattrs v))))
+                                               else Raise                            (* ValueError instead of an ill-formed file *)
                                    | None => Raise end
                 | _, _ => putvar T (vdims v) (vattrs v) (vshape v) false
                 end);
@@ -600,10 +616,6 @@ Fixpoint trace (f : file) (ops : list op) : list (res file) :=
   end.
 
 (* ---- the sub-domain on which well-formedness is PROVED (complement = known-defect regions) ---- *)
-(* renameDimensions: every new key is fresh (not an existing dimension, not repeated) *)
-Definition safe_rename (T : dimtab) (prs : list (name * name)) : bool :=
-  nodupb (map snd prs) && forallb (fun p => negb (has (snd p) T)) prs
-  && forallb (fun p => negb (memb (snd p) (map fst prs))) prs.
 (* eval: the value has the shape of the variable whose metadata it inherits *)
 Definition safe_eval (f : file) (key : name) (e : expr) : bool :=
   match e with
@@ -616,17 +628,10 @@ Definition safe_eval (f : file) (key : name) (e : expr) : bool :=
                 | _, _ => true end
   | EIndex _ => false
   end.
-(* arithmetic: the other operand never broadcasts a variable to a larger shape *)
-Definition safe_binop (f other : file) : bool :=
-  forallb (fun kv => match memb (fst kv) (fcoords f), lookup (fst kv) (fvars other) with
-                     | false, Some w => option_eqb (list_eqb Nat.eqb) (bcast (vshape (snd kv)) (vshape w)) (Some (vshape (snd kv)))
-                     | _, _ => true end) (fvars f).
 (* region number of an operation in a state: 0 = proved domain *)
 Definition op_region (f : file) (o : op) : nat :=
   match o with
-  | ORenameDim prs => if safe_rename (fdims f) prs then 0 else 1
-  | OEval k e _ => if safe_eval f k e then 0 else 2
-  | OBinop other => if safe_binop f other then 0 else 3
+  | OEval k e _ => if safe_eval f k e then 0 else 1
   | _ => 0
   end.
 Definition safe_op (f : file) (o : op) : bool := Nat.eqb (op_region f o) 0.
@@ -654,4 +659,11 @@ Definition keeps_table (o : op) : bool :=
   match o with
   | OCopy | OSubset _ | ORenameVar _ | OReorder _ | OMask _ _ _ | OEval _ _ _ | OBinop _ => true
   | _ => false
+  end.
+
+(* "surviving dimensions keep their unlimited flag", for one step of operation o *)
+Definition unlim_kept_op (o : op) (T T' : dimtab) : bool :=
+  match o with
+  | ORenameDim prs => unlim_renamedb (rn prs) T T'
+  | _ => unlim_keptb T T'
   end.
